@@ -185,7 +185,11 @@ struct VouSk: Sk {
   const char* fam() const override { return "varopt_union"; }
   Sk* clone() const override { return new VouSk(S(*s), k); }
   Sk* move_out() override { return new VouSk(S(std::move(*s)), k); }
+#ifdef DSIM_BASELINE   // the pinned baseline's var_opt_union copy assignment does not compile (repaired in /repo)
+  void copy_assign(const Sk& o) override { s.reset(new S(*static_cast<const VouSk&>(o).s)); k = static_cast<const VouSk&>(o).k; }
+#else
   void copy_assign(const Sk& o) override { *s = *static_cast<const VouSk&>(o).s; k = static_cast<const VouSk&>(o).k; }
+#endif
   void move_assign(Sk& o) override { *s = std::move(*static_cast<VouSk&>(o).s); k = static_cast<VouSk&>(o).k; }
   void feed(i64 start, i64 count, i64 pattern) override {
     K sk(std::max<uint32_t>(1, static_cast<uint32_t>(k / (1 + (static_cast<u64>(start) % 3)))), ds::resize_factor::X2, A(ARENA));
@@ -223,7 +227,11 @@ template<typename T> struct EbSk: Sk {
   void copy_assign(const Sk& o) override { *s = *static_cast<const EbSk&>(o).s; }
   void move_assign(Sk& o) override { *s = std::move(*static_cast<EbSk&>(o).s); }
   void feed(i64 start, i64 count, i64 pattern) override { for (i64 j = 0; j < count; j++) { i64 v = feed_value(start, j, count, pattern); s->update(Item<T>::make(v), feed_weight(v, pattern)); } }
+#ifdef DSIM_BASELINE   // the pinned baseline's merge(const&) does not compile with a user allocator (repaired in /repo)
+  void merge(const Sk& o) override { S tmp(*static_cast<const EbSk&>(o).s); s->merge(std::move(tmp)); }
+#else
   void merge(const Sk& o) override { s->merge(*static_cast<const EbSk&>(o).s); }
+#endif
   void merge_move(Sk& o) override { s->merge(std::move(*static_cast<EbSk&>(o).s)); }
   void reset() override { s->reset(); }
   std::string obs(bool det_only) const override {
